@@ -11,7 +11,7 @@ TRUSTED_BASE = [
     "correspondence harness harness/cmd/vh + bin/check (generators, canonicalisers, coqc output parsing)",
 ]
 
-HOOK_COMMITS = []
+HOOK_COMMITS = ["d570ad2"]
 
 import glob as _glob, json as _json, os as _os
 
